@@ -5,7 +5,9 @@
 use h_common::{tool_error, Args};
 
 mod blob;
+mod commit;
 mod merkle;
+mod util;
 
 fn main() {
     let args = Args::from_env();
@@ -14,6 +16,7 @@ fn main() {
     h_common::quiet_panics();
     match (mode.as_str(), model.as_str()) {
         ("replay", "blob") => blob::replay(&args),
+        ("replay", "commitment") => commit::replay(&args),
         ("replay", "merkle") => merkle::replay(&args),
         ("replay", "rowproof") => merkle::replay_rowproof(&args),
         _ => tool_error(&format!("unknown mode/model {mode}/{model}")),
